@@ -160,6 +160,7 @@ type CaseStats struct {
 	Joiners                                int
 	MaxTerm                                uint64
 	SentByNewLeaderBeforePersist           int
+	PersistedBeforePublish                 int
 	ExcludedKnown                          int
 }
 
